@@ -556,7 +556,7 @@ def quadratic_add_linear():
 def typed_macro_units():
     """macro instances between typed operands whose callees are all verified units: linear.rs, and the Linear-operand instances of quadratic.rs"""
     U = []
-    NEG = {'f64': 'neg_f64', 'Linear': 'neg_linear', 'Quadratic': 'neg_quadratic'}
+    NEG = {'f64': 'neg_f64', 'Linear': 'neg_linear', 'Quadratic': 'neg_quadratic', 'Polynomial': 'neg_polynomial'}
 
     def si(tr, op, a, b, c):
         return ('impl %sSpecImpl<%s> for %s { open spec fn obeys_%s_spec() -> bool { false } open spec fn %s_req(self, rhs: %s) -> bool { true } '
@@ -599,7 +599,19 @@ def typed_macro_units():
             U.append(unit(file, 'impl_mul_inverse', args, ln, 'mul', 'impl core::ops::Mul<%s> for %s { type Output = %s;' % (T[b]['rust'], T[a]['rust'], T[b]['rust']), si('Mul', 'mul', a, b, b),
                           'fn mul(self, rhs: %s) -> (r: %s)\n        ensures %s' % (T[b]['rust'], T[b]['rust'], contract('mul', b, a, b, lhs='rhs', rhs='self'))
                           + ('\n            linear_fin(rhs) && fin(self) ==> lin_scaled(r, rhs, self),' if b == 'Linear' else '')))
-    # a - b is computed as a + (-b); decided here for b = f64 (negation of a float is exact, Linear + f64 has no remainder)
+    # a - b is computed as a + (-b) with an exact negation: the contract of a + n for the (existentially named) negation n of b
+    for file in ('linear.rs', 'quadratic.rs', 'polynomial.rs'):
+        for args, ln in core.macro_invocations(file, 'impl_sub_by_neg_add'):
+            a, b = args
+            if (a, b) == ('Linear', 'f64') or a not in T or b not in T or a == 'Function':
+                continue
+            c = OUT[('add', a, b)]
+            req = ' && '.join(['qcoo(%s)' % x for t, x in ((a, 'self'), (b, 'rhs')) if t == 'Quadratic']) or 'true'
+            U.append(unit(file, 'impl_sub_by_neg_add', args, ln, 'sub', 'impl core::ops::Sub<%s> for %s { type Output = %s;' % (T[b]['rust'], T[a]['rust'], T[c]['rust']),
+                          'impl SubSpecImpl<%s> for %s { open spec fn obeys_sub_spec() -> bool { false } open spec fn sub_req(self, rhs: %s) -> bool { %s } open spec fn sub_spec(self, rhs: %s) -> %s { arbitrary() } }\n'
+                          % (T[b]['rust'], T[a]['rust'], T[b]['rust'], req, T[b]['rust'], T[c]['rust']),
+                          'fn sub(self, rhs: %s) -> (r: %s)\n        ensures exists|n: %s| #![trigger %s] %s(n, rhs)%s && %s,'
+                          % (T[b]['rust'], T[c]['rust'], T[b]['rust'], ('n@' if b == 'f64' else '%s(n, rhs)' % NEG[b]), NEG[b], ' && (qcoo(rhs) ==> qcoo(n))' if b == 'Quadratic' else '', contract_conj('add', a, b, c, lhs='self', rhs='n'))))
     for args, ln in core.macro_invocations('linear.rs', 'impl_sub_by_neg_add'):
         a, b = args
         if (a, b) != ('Linear', 'f64'):
@@ -892,6 +904,10 @@ def var_units():
                               pre=si(tr, op, T[t]['rust'], RP, T[out2]['rust'], req_of(t, 'self'), lt="<'a>"),
                               wrap=("impl<'a> core::ops::%s<%s> for %s { type Output = %s;" % (tr, RP, T[t]['rust'], T[out2]['rust']), '}'),
                               header='fn %s(self, rhs: %s) -> (r: %s)\n        ensures exists|a: Linear| #![trigger var_lin(a, rhs.id)] var_lin(a, rhs.id) && %s,' % (op, RP, T[out2]['rust'], body2)))
+    U.append(Unit('Neg for &DecisionVariable', 'v1_ext/decision_variable.rs', 'neg', impl=r'impl Neg for &DecisionVariable \{', sig='fn neg(self) -> Self::Output', anyhow=False,
+                  pre="impl<'a> NegSpecImpl for &'a DecisionVariable { open spec fn obeys_neg_spec() -> bool { false } open spec fn neg_req(self) -> bool { true } open spec fn neg_spec(self) -> Linear { arbitrary() } }\n",
+                  wrap=("impl<'a> core::ops::Neg for &'a DecisionVariable { type Output = Linear;", '}'),
+                  header='fn neg(self) -> (r: Linear)\n        ensures exists|a: Linear| #![trigger var_lin(a, self.id)] var_lin(a, self.id) && neg_linear(r, a),'))
     # the hand-written impls between two variables / parameters
     for file, lhs, rhs in (('parameter.rs', 'Parameter', 'Parameter'), ('parameter.rs', 'Parameter', 'DecisionVariable'), ('parameter.rs', 'DecisionVariable', 'Parameter'),
                            ('v1_ext/decision_variable.rs', 'DecisionVariable', 'DecisionVariable')):
